@@ -46,15 +46,22 @@ def case_strategy(draw, tier):
         'cons_work': draw(st.lists(st.sampled_from([0, 0, 3, 10, 50, 250]), min_size=1, max_size=2)),
         'other_work': draw(st.lists(st.sampled_from([0, 3, 10, 50]), min_size=1, max_size=2)),
         'required': draw(st.booleans()),
-        'low_latency': draw(st.sampled_from([None, None, True])),
+        'low_latency': draw(st.sampled_from([None, True])),
         'net': draw(scen.net_strategy(classes=('fast', 'lan', 'sub_poll'), max_drops=0)),
         'starts': draw(st.lists(st.sampled_from([0, 0, 0, 60, 400]), min_size=4, max_size=4)),
         'double': draw(st.booleans()),
+        # the producer has nothing to send for a while (its deferred result yields None, as a camera without a new picture does) while its
+        # consumers keep waiting and re-requesting; the stall begins right when frames come back
+        'gap_ms': draw(st.sampled_from([None, None, None, 2000, 3500, 4500])),
+        'gap_lead': draw(st.sampled_from([0, 0, 1])),
         'ipc': draw(st.booleans()),
     })
 
 
 def _cap(case):
+    if case.get('gap_ms'):
+        case['k'] = min(case['k'], 12)
+        case['stall_ms'] = min(case['stall_ms'], 4800)
     if max(case['src_work']) >= 150:
         case['k'] = min(case['k'], 25)      # keep the virtual run length reasonable for slow producers
     return case
@@ -64,7 +71,10 @@ def build_nodes(case, stall_ms):
     st_ = case['starts']
     ccfg = {} if case['low_latency'] is None else {'sources_low_latency': True}
     stalled = {'id': 'C', 'nout': 0, 'beh': {'kind': 'sink', 'work': case['cons_work'], 'stall': {'at': case['k'], 'ms': stall_ms}}, 'start': st_[2], 'cfg': ccfg}
-    nodes = [{'id': 'S', 'beh': {'kind': 'src', 'n': case['n'], 'work': case['src_work']}, 'start': st_[0]}]
+    sbeh = {'kind': 'src', 'n': case['n'], 'work': case['src_work']}
+    if case.get('gap_ms'):
+        sbeh['gap'] = {'after': max(0, case['k'] - 1 - case.get('gap_lead', 0)), 'ms': case['gap_ms']}     # the frame the consumer stalls on is the first (or second) after the gap
+    nodes = [{'id': 'S', 'beh': sbeh, 'start': st_[0]}]
     edges = []
     if case['pos'] == 'relay':
         nodes[0]['required'] = ['R'] if case['required'] else None
@@ -134,6 +144,8 @@ def run_once(case, stall_ms):
 def run_case(case):
     r = run_once(case, case['stall_ms'])
     classes = [f'position {case["pos"]}', f'net {case["net"]["cls"]}', 'stall beyond timeout' if case['stall_ms'] > CONN_TIMEOUT_MS else 'stall below timeout']
+    if case.get('gap_ms'):
+        classes.append('producer idle before the stall')
     if r.get('raised'):
         return bad(f'filter {r["raised"][0][0][0]} ended with {r["raised"][0][1]["exc"]}', f'filter-raised:{r["raised"][0][1].get("type")}', classes)
     if not r['stalled']:
